@@ -1,5 +1,6 @@
 """C18 Saving and loading an OCP preserves the problem."""
 import copy
+import casadi as ca
 import os
 import random
 import tempfile
@@ -152,6 +153,13 @@ def run(item):
             cfg.N = cfg.N + 1
             b.ocp.method(make_method(cfg))
             b.cfg = cfg
+    def casadi_pickles():
+        import pickle
+        try:
+            return tuple(pickle.loads(pickle.dumps(ca.DM([1, 2]))).shape) == (2, 1)
+        except Exception:
+            return False
+    pickles_before = casadi_pickles()
     fd, path = tempfile.mkstemp(suffix='.rockit', prefix='rvc18_')
     os.close(fd)
     try:
@@ -205,6 +213,9 @@ def run(item):
                                  'detail': '%s through the accessors of the loaded OCP raised (%s) although the same edit is accepted by the original' % (nm, str(e).strip().splitlines()[-1][:160])})
         spec = copy.deepcopy(spec)
         spec.cons = list(spec.cons) + [Con('<=', X(0), 11)]
+    if pickles_before and not casadi_pickles():
+        viol.append({'property': PROP, 'key': 'process-damaged|%s|save-%s' % (cfg.method, when), 'label': 'pickle(casadi.DM)', 'cfg': repr(cfg), 'spec': spec.note,
+                     'detail': "after ocp.save()/Ocp.load(), CasADi objects can no longer be pickled in this process (CasADi's own hooks were removed)"})
     # the original can still be transcribed after saving
     O2 = Inst(spec, cfg, seed=item.get('seed', 0), built=b, solver=False)
     ch = Checker(O2)
